@@ -14,7 +14,7 @@
 ; HMAC(alg, key, msg): uninterpreted; only its length and byte range are known.
 (declare-fun HMAC (Int BSeq BSeq) BSeq)
 (assert (forall ((a Int) (k BSeq) (m BSeq)) (! (= (len (HMAC a k m)) (hlen a)) :pattern ((HMAC a k m)))))
-(assert (forall ((a Int) (k BSeq) (m BSeq) (i Int)) (! (and (<= 0 (at (HMAC a k m) i)) (<= (at (HMAC a k m) i) 255)) :pattern ((at (HMAC a k m) i)))))
+(assert (forall ((a Int) (k BSeq) (m BSeq) (i Int)) (! (=> (and (<= 0 i) (< i (hlen a))) (and (<= 0 (at (HMAC a k m) i)) (<= (at (HMAC a k m) i) 255))) :pattern ((at (HMAC a k m) i)))))
 ; be8(v): 8-byte big-endian representation
 (declare-fun be8 (Int) BSeq)
 (assert (forall ((v Int)) (! (= (len (be8 v)) 8) :pattern ((be8 v)))))
@@ -110,8 +110,24 @@
 ; fill(c, n): n copies of byte c
 (declare-fun fill (Int Int) BSeq)
 (assert (forall ((c Int) (n Int)) (! (=> (>= n 0) (= (len (fill c n)) n)) :pattern ((fill c n)))))
-(assert (forall ((c Int) (n Int) (k Int)) (! (= (at (fill c n) k) c) :pattern ((at (fill c n) k)))))
+(assert (forall ((c Int) (n Int) (k Int)) (! (=> (and (<= 0 k) (< k n)) (= (at (fill c n) k) c)) :pattern ((at (fill c n) k)))))
 ; decimal numerals (assumed fact about strconv.FormatUint, a property of decimal notation):
 ; for 0 <= v < 10^d, left-padding dec(v) with '0' to d characters gives the d decimal digits of v
 (assert (forall ((v Int) (d Int)) (! (=> (and (<= 1 d) (<= d 19) (<= 0 v) (< v (pow10 d)))
    (and (<= 1 (len (dec v))) (<= (len (dec v)) d) (= (cat (fill 48 (- d (len (dec v)))) (dec v)) (fmtdec v d)))) :pattern ((fmtdec v d) (dec v)))))
+
+; ---- REST layer vocabulary (uninterpreted readings of requests and JSON texts) ----
+(declare-fun ispost (Int) Bool)
+(declare-fun isget (Int) Bool)
+(assert (forall ((c Int)) (! (not (and (ispost c) (isget c))) :pattern ((ispost c)) :pattern ((isget c)))))
+(declare-fun reqbody (Int) BSeq)
+(declare-fun reqpath (Int) BSeq)
+(declare-fun reqmethod (Int) BSeq)
+(declare-fun reqquery (Int BSeq) BSeq)
+(declare-fun jok (BSeq Int) Bool)
+(declare-fun jstr (BSeq BSeq) BSeq)
+(declare-fun jnum (BSeq BSeq) Int)
+(declare-fun jbool (BSeq BSeq) Bool)
+(declare-fun jhas (BSeq BSeq) Bool)
+(declare-fun statustext (Int) BSeq)
+(declare-fun contains (BSeq BSeq) Bool)
